@@ -57,3 +57,24 @@ Theorem C05_separated_rewards : forall (raw : list (string * Q)) a1 x1 a2 x2 m0,
   Num.eqb qops (qround6 x1) (vmin qops m0 vals) = false.
 Proof. exact scan_separated. Qed.
 Print Assumptions C05_separated_rewards.
+
+(** end to end on solve(): the reported final strategy of state i is the arg-max (Player 1, from 0) /
+    arg-min (Player 2, from its first successor) filter of the 6-digit roundings of the REPORTED expected
+    rewards over i's row in the conditioned game (r_pruned), in that row's order; an emptied Player 2
+    state gets the empty list, probabilistic states None *)
+From CR Require Import Proofs.StratSolveP.
+Theorem C05_solve_strategies : forall (T : Type) (K : ops T), lawful_order K ->
+  forall fuel (g : game (T:=T)) prune r i,
+  wf_game K g -> solve_fuel K fuel g prune = Ok r -> i < nstates g ->
+  nth i (r_final r) None =
+  let vals := vals_of K (r_rewards r) (nth i (r_pruned r) []) in
+  match nth i (g_players g) PR with
+  | P1 => Some (argmax_list K (zero K) vals)
+  | P2 => match vals with
+          | [] => Some []
+          | (_, v0) :: _ => Some (argmin_list K v0 vals)
+          end
+  | PR => None
+  end.
+Proof. intros T K L. exact (final_strategies_of_solve K L). Qed.
+Print Assumptions C05_solve_strategies.
